@@ -293,6 +293,28 @@ func cacheScenarios(tier string) []*mc.Scenario {
 		}}},
 		Bound: map[string]int{"quick": 1, "thorough": 2},
 	})
+	// a system reset that finds the entry unused and waiting for eviction: the
+	// re-fetch is a request in flight, the entry and its event subscription are
+	// kept until it is answered (with and without reset throttle; the get answer
+	// is slow, so the eviction timer gets its chance first)
+	for _, n := range []int{0, 1} {
+		n := n
+		out = append(out, &mc.Scenario{
+			Name: fmt.Sprintf("cache/reset-idle/throttle%d", n), Props: append(props, "C12"), Init: basicInit, Monitors: allMons(),
+			Cfg:  func(c *server.Config) { c.ResetThrottle = n },
+			Conns: []mc.ConnSpec{
+				conn(latest, req("subscribe.test.x", 0), req("subscribe.test.m", 0), req("unsubscribe.test.x", 1), req("unsubscribe.test.m", 1)),
+				conn(latest, req("subscribe.test.x", 3)),
+			},
+			Threads: []mc.Thread{{Name: "svc", Ops: []mc.Op{
+				op("x:=10", 2, func(w *mc.World) { w.Svc.Model("test.x", "n", `10`) }),
+				op("reset", 2, func(w *mc.World) { w.Svc.Reset([]string{"test.>"}, nil) }),
+				disc(0, 4), disc(1, 4),
+			}}},
+			Slow:  func(r *mc.Req) bool { return subjectIs(r, "get.") && !strings.HasSuffix(r.Name, "#0") },
+			Bound: map[string]int{"quick": 2, "thorough": 3},
+		})
+	}
 	out = append(out, &mc.Scenario{
 		Name: "cache/lifecycle", Props: props, Init: basicInit, Monitors: allMons(),
 		Conns: []mc.ConnSpec{
